@@ -1,5 +1,5 @@
 (** C03 - Receiver reassembles every well-formed stream and issues correct flow control. *)
-From IsoTp Require Import Base.Prelude Model.Layer Spec.ConfigSpec Spec.Stream Spec.Segment Proofs.RxP.
+From IsoTp Require Import Base.Prelude Model.Layer Spec.ConfigSpec Spec.Stream Spec.Segment Proofs.RxP Proofs.FcPosP.
 
 (** For every receiver configuration, every payload, every stream a conforming sender may
     produce for it (Spec/Stream.v: any link-layer size, SF short/escape, 12/32-bit FF, any
@@ -28,5 +28,24 @@ Theorem C03_flow_control_frame : forall c s st,
   rx_state (tr_s r) = rx_state s /\ rx_queue (tr_s r) = rx_queue s /\ rx_buffer (tr_s r) = rx_buffer s.
 Proof. exact fc_answer. Qed.
 
+(** Run level, with the answers ([rx_run_fc]: each frame through _process_rx, and the transmit pass that
+    answers as soon as a Flow Control is pending): for a well-formed multi-frame stream reaching an idle
+    receiver, the payload is delivered intact without error and the Flow Controls emitted are exactly:
+    one after the First Frame and one after every [blocksize]-th Consecutive Frame that is not the last
+    ([fc_due]), each equal to the reference ContinueToSend frame; nothing after the other frames. *)
+Theorem C03_flow_control_positions : forall c mk, (forall d, f_data (mk d) = d) -> params_ok (c_p c) ->
+  p_listen (c_p c) = false ->
+  forall p T pre first rest cfs s,
+  In T LL_SIZES -> zlen pre = c_rx_prefix_size c -> p = first ++ rest -> rest <> [] -> 0 < zlen p < 2 ^ 32 ->
+  zlen (pre ++ ff_hdr (zlen p) ++ first) = T -> wf_cfs (c_rx_prefix_size c) T 1 rest cfs ->
+  zlen p <= p_max_frame_size (c_p c) -> rx_state s = RxIdle -> pending_fc s = false ->
+  let fcref := spec_frame c (Address.tx_arb_id (c_txa c) Physical)
+                 (Address.tx_prefix (c_txa c) ++ [0x30 + FS_CTS; p_blocksize (c_p c); p_stmin (c_p c)]) in
+  let '(s', evs, fcs) := rx_run_fc c s ((pre ++ ff_hdr (zlen p) ++ first) :: cfs) mk in
+  evs = [] /\ rx_queue s' = rx_queue s ++ [p] /\ rx_state s' = RxIdle /\
+  fcs = Some fcref :: map (fun i => if fc_due c i (zlen cfs) then Some fcref else None) (zseq 1 (zlen cfs)).
+Proof. exact rx_stream_fc. Qed.
+
 Print Assumptions C03_reassembly.
 Print Assumptions C03_flow_control_frame.
+Print Assumptions C03_flow_control_positions.
